@@ -380,6 +380,22 @@ def gen_cases(kind, seed, n):
                           "wmode": "decimal", "wscale": 0, "nomodel": True, "near": near,
                           "calls": [{"fn": "cutsweep", "w": 1, "level": 2, "src": [x], "t": None, "c": None,
                                      "fo": 0, "wp": 1} for x in nm]})
+    if kind == "c04":
+        # more equal shortest paths than any fixed limit a tie routine could have: chains of 11-12 diamonds
+        # (2048 / 4096 shortest paths between the ends), oracle only
+        rp = gv.SplitMix(seed * 7919 + 4040)
+        for k in ([11] if n <= 400 else [11, 12, 12]):
+            directed = rp.below(2)
+            perm = rp.shuffle(list(range(3 * k + 1)))
+            es = []
+            for j in range(k):
+                a, b, c_, d = perm[3 * j], perm[3 * j + 1], perm[3 * j + 2], perm[3 * j + 3]
+                es += [(a, b, 1, None), (a, c_, 1, None), (b, d, 1, None), (c_, d, 1, None)]
+            cases.append({"id": "c04_paths%d_%d" % (k, len(cases)), "spec": (directed, 0, 1, 2, 0, 1),
+                          "nodes": [(x, None) for x in rp.shuffle(list(perm))], "edges": es,
+                          "wmode": "int", "wscale": 0, "nomodel": True, "expect_paths": 2 ** k,
+                          "calls": [{"fn": "pathcount", "w": w_, "level": 2, "src": [perm[0]], "t": perm[3 * k], "c": None,
+                                     "fo": 0, "wp": 1} for w_ in (0, 1)]})
     return cases
 
 
@@ -656,6 +672,17 @@ def cutsweep_oracle(c, obs):
                 msgs.append("single_source(weighted, %d, cutoff=%r, first_only=%d, with_paths=%d) is not the unrestricted "
                             "answer restricted to distance <= cutoff (%r is a distance that search itself reports)"
                             % (s0, d, fo, wp, d))
+    if c.get("expect_paths"):
+        rows = [r for (k, r, _) in obs if k == 5084]
+        if len(rows) != len(c["calls"]):
+            return ["path count: %d of %d answers" % (len(rows), len(c["calls"]))]
+        for r, call in zip(rows, c["calls"]):
+            npaths, ndist, nvalid = r[0]
+            if (npaths, ndist, nvalid) != (c["expect_paths"],) * 3:
+                msgs.append("single_source(weighted=%d, %d, all paths): the far end %d has %d shortest paths; reported %d "
+                            "(%d distinct, %d of them real paths of the reported length)"
+                            % (call["w"], call["src"][0], call["t"], c["expect_paths"], npaths, ndist, nvalid))
+        return msgs
     if seen != len(c["calls"]):
         msgs.append("cutoff sweep produced %d of %d summaries" % (seen, len(c["calls"])))
     # the distances against exact rational Dijkstra on the decimals the weights stand for (k/10), to 1e-9
@@ -946,6 +973,8 @@ class SpProp(props.BaseProp):
         return cur, cur_d
 
     def stats_key(self, c, o):
+        if c.get("expect_paths"):
+            return ["weights_int", "more_than_1024_equal_shortest_paths"]
         if c.get("nomodel"):
             n = sum(r[0][0] for (k, r, _) in o if k == 5080 and r[0][0] > 0)
             return ["weights_decimal", "cutoff_equals_realised_distance_checks_%s" % ("0" if n == 0 else "1-9" if n < 10 else "10+")]
@@ -963,6 +992,8 @@ class SpProp(props.BaseProp):
         return ks
 
     def nontrivial(self, c, o):
+        if c.get("expect_paths"):
+            return any(k == 5084 and r[0][0] > 1024 for (k, r, _) in o)
         if c.get("nomodel"):
             return any(k == 5080 and r[0][0] >= 6 for (k, r, _) in o)
         so = split_obs(c, o)
